@@ -16,6 +16,7 @@ pub struct Report {
     pub other_prop_viols: BTreeMap<String, u64>,
     pub cases: u64,
     pub max_samples: usize,
+    pub viol_sigs: BTreeMap<String, u64>,
 }
 
 impl Report {
@@ -38,7 +39,9 @@ impl Report {
     }
     /// Record a violation of this report's property.
     pub fn violation(&mut self, sig: &str, detail: &str, case: J) {
-        if self.violations.len() < 10 {
+        let n = self.viol_sigs.entry(sig.to_string()).or_insert(0);
+        *n += 1;
+        if *n <= 2 && self.violations.len() < 40 {
             self.violations.push(
                 J::obj()
                     .with("property", J::s(&self.prop))
@@ -75,5 +78,9 @@ impl Report {
             .with("violations", J::Arr(self.violations.clone()))
             .with("inconclusive", J::strs(self.inconclusive.iter().cloned()))
             .with("other_property_violations_seen", o)
+            .with(
+                "violation_signatures",
+                J::Obj(self.viol_sigs.iter().map(|(k, v)| (k.clone(), J::i(*v))).collect()),
+            )
     }
 }
